@@ -6,11 +6,13 @@ package main
 
 import (
 	"bufio"
+	"bytes"
 	"crypto/tls"
 	"encoding/json"
 	"fmt"
 	"io"
 	"net"
+	"strings"
 	"sync"
 	"time"
 )
@@ -52,6 +54,9 @@ type c15Env struct {
 	slow      sync.Map // path -> delay
 }
 
+// c11BigBody: the size of the reply to a "/big-run-" request (C11, client kind pipelined).
+const c11BigBody = 16 << 20
+
 func newC15Env() *c15Env { return newC15EnvIdle(c15Idle) }
 
 // newC15EnvIdle: the proxies of every (or only the named) stacking with the C15 limits and the given idle limit.
@@ -67,6 +72,17 @@ func newC15EnvLimits(idle, head, tlsHs, pp time.Duration, only ...string) *c15En
 	resp := func(p *peer, ci, ri int, req *wireMsg, w io.Writer) bool {
 		if d, ok := env.slow.Load(req.Target); ok {
 			time.Sleep(d.(time.Duration))
+		}
+		if strings.Contains(req.Target, "/big-run-") {
+			// a body larger than any socket buffer on the way
+			fmt.Fprintf(w, "HTTP/1.1 200 OK\r\nContent-Type: application/octet-stream\r\nContent-Length: %d\r\n\r\n", c11BigBody)
+			chunk := bytes.Repeat([]byte("b"), 64<<10)
+			for sent := 0; sent < c11BigBody; sent += len(chunk) {
+				if _, err := w.Write(chunk); err != nil {
+					return true
+				}
+			}
+			return false
 		}
 		return defaultResponder(p, ci, ri, req, w)
 	}
